@@ -125,11 +125,9 @@ fn run_history(h: &Hist) -> (Vec<Bad>, String) {
             }
             Op::SetLimit(l) => {
                 // what Server::notify does for SetMaxConnectionsPerIp
+                // (it used to wipe the accounting when the limit became 0; part (c) showed that
+                // an address then gets a second quota, so the wipe is gone from Server::notify)
                 m.max_connections_per_ip = l as u64;
-                if l == 0 {
-                    m.clear_cluster_ip_tracking();
-                    r.tracked.clear();
-                }
                 r.limit = l as u64;
             }
         }
@@ -179,11 +177,13 @@ fn run_history(h: &Hist) -> (Vec<Bad>, String) {
 pub fn run(ctx: &Ctx) -> Coverage {
     if std::env::var("VERIF_SHARD").is_ok() {
         super::c16b::run(ctx);
+        super::c16c::run(ctx);
         unreachable!();
     }
     let mut cov = Coverage::aggregate();
     cov.absorb("a-session-manager", run_a(ctx));
     cov.absorb("b-live-sessions", super::c16b::run(ctx));
+    cov.absorb("c-per-address-limit-changed-at-runtime", super::c16c::run(ctx));
     cov
 }
 
@@ -237,6 +237,9 @@ fn run_a(ctx: &Ctx) -> Coverage {
 pub fn replay(ctx: &Ctx, case: &Value) -> Coverage {
     if case["part"] == "b" {
         return super::c16b::replay_case(ctx, case);
+    }
+    if case["part"] == "c" {
+        return super::c16c::replay_case(ctx, case);
     }
     let h: Hist = serde_json::from_value(case["history"].clone())
         .unwrap_or_else(|e| machinery_error(&format!("bad replay history: {e}")));
